@@ -1,4 +1,4 @@
-Require Import AT.Model.Base AT.Model.Symlink AT.Spec.SymlinkSpec AT.Corr.Common.
+Require Import AT.Model.Base AT.Model.Symlink AT.Model.SymlinkX AT.Spec.SymlinkSpec AT.Corr.Common.
 
 Definition aout_eqb (a b : aout) : bool :=
   match a, b with
@@ -9,7 +9,10 @@ Definition aout_eqb (a b : aout) : bool :=
   end.
 (** (attribute operations on objects numbered in creation order, observed outcome of each,
      the harness's structural checks passed) *)
-Definition case20 := (list aop * list aout * bool)%type.
+Definition case20 := (list aop * list (list (name * aval)) * list aout * bool)%type.
+(** class-level attributes per object, in creation order (empty for the library's own classes) *)
+Definition cls_of (l : list (list (name * aval))) : id -> list (name * aval) := fun x => nth x l [].
+Definition no_class_attrs (l : list (list (name * aval))) : bool := forallb (fun a => match a with [] => true | _ => false end) l.
 
 (** spec: every read returns the current value of the FINAL target's attribute
     (AttributeError if it lacks it); writes and constructor keywords are
@@ -38,6 +41,9 @@ Fixpoint write_then_read (s : objs) (ops : list aop) : bool :=
 
 Definition corr_C20 (cs : list case20) : report :=
   mk_report (map (fun c : case20 =>
-    let '(ops, outs, ok) := c in
-    (list_eqb aout_eqb (fst (run_aops [] ops)) outs,
-     ok && list_eqb aout_eqb (spec_outs [] ops) outs && write_then_read [] ops)) cs).
+    let '(ops, cl, outs, ok) := c in
+    let m := list_eqb aout_eqb (fst (run_aops_c (cls_of cl) [] ops)) outs in
+    (m,
+     (* classes that define attributes themselves: the statement's clauses are those of the extended model *)
+     if no_class_attrs cl then ok && list_eqb aout_eqb (spec_outs [] ops) outs && write_then_read [] ops
+     else ok && m)) cs).
